@@ -4,6 +4,7 @@ open RedunModel RedunModel.ValueHash
 
 /- value ::= N | T | F | i<int> | s<hex utf-8> | b<hex> | (L v*) | (U v*) | (D (k v)*) | (S v*) | (FS v*) | (O <cls> v*)
    (sets / frozensets list their elements in the iteration order observed in the process that hashed the value)
+   request:  record v -> same reply format, for the hash `record_value` stores (`get_hash(data=serialize())`)
    request:  hash v   ->   V:<layout>          pre-image under tag "Value"
                            S:(<sorted items>)  pre-image under tag "Value.set"
                            S:(<items by element digest>) when sorted() raises TypeError (model digest, see `digest`)
@@ -84,6 +85,14 @@ def step (_ : Unit) (line : String) : Unit × String :=
     match toV x with
     | some v =>
       match getHash digest v with
+      | .ok p => ((), renderPre p)
+      | .typeError => ((), "!TypeError")
+      | .unspecified => ((), "unspecified")
+    | none => ((), "bad-value")
+  | some [.atom "record", x] =>
+    match toV x with
+    | some v =>
+      match recordValue digest v with
       | .ok p => ((), renderPre p)
       | .typeError => ((), "!TypeError")
       | .unspecified => ((), "unspecified")
